@@ -44,6 +44,27 @@ Definition stops (construct : Z) (w : nat) (mode variant : Z) : list label :=
     LAbandon (3 + ab) :: map (fun j => LClose (3 + j)) (filter (fun j => negb (j =? ab)) (seq 0 w))
   else [].
 
+(* the driver reads Split's outputs one after the other (output t mod w takes item t): during the
+   take-k phase only the splitter (1) and the output whose turn it is are scheduled *)
+Definition labels_of (allowed : list pid) : list label :=
+  map (fun p => LStep p false) allowed ++ flat_map (fun p => map (fun q => LRdv p q) allowed) allowed.
+
+Fixpoint run_only (N : net) (fuel : nat) (allowed : list pid) (target : nat) (s : state) : state :=
+  match fuel with
+  | O => s
+  | S f => if target <=? length (s_deliv s) then s
+           else match first_enabled N s (labels_of allowed) with
+                | Some s' => run_only N f allowed target s'
+                | None => s
+                end
+  end.
+
+Fixpoint seq_take (N : net) (fuel w k t : nat) (s : state) : state :=
+  match k with
+  | O => s
+  | S k' => seq_take N fuel w k' (S t) (run_only N fuel [1; 3 + (t mod w)] (S t) s)
+  end.
+
 Record outcome := mkOutcome { o_leak : nat; o_stuck : bool; o_eof : bool }.
 
 Definition model_outcome (construct : Z) (n w cap k : nat) (mode variant : Z) (rot : nat) : option outcome :=
@@ -55,10 +76,11 @@ Definition model_outcome (construct : Z) (n w cap k : nat) (mode variant : Z) (r
   | None => None
   | Some (N, s0) =>
       let fuel := 60 * (n + w + 6) + 200 in
-      (* Split: the driver advances output 0 first, so goroutine 3 starts the splitter *)
-      let s1 := if Z.eqb construct 1 && negb (Z.eqb mode 0) && (0 <? k) then apply N [LStep 3 false; LStep 3 false] s0 else s0 in
-      let s := if Z.eqb mode 0 then run N fuel rot false None s1
-               else scenario N s1 fuel rot false (Some k) (stops construct w mode variant) in
+      let s := if Z.eqb mode 0 then run N fuel rot false None s0
+               else if Z.eqb construct 1
+                    then (* Split: sequential consumers; output 0 (goroutine 3) is advanced first and starts the splitter *)
+                         run N fuel (rot + 7) false None (apply N (stops construct w mode variant) (seq_take N fuel w k 0 s0))
+                    else scenario N s0 fuel rot false (Some k) (stops construct w mode variant) in
       Some (mkOutcome (leaks N s) (negb (stuck_users N s =? 0))
                       ((leaks N s =? 0) && (stuck_users N s =? 0) && (length (s_deliv s) =? n) && quiescentb N s))
   end.
